@@ -22,7 +22,7 @@ use roto::verif_hooks::core::lower_to_mir;
 use roto::{FileTree, Runtime};
 use rotov_harness::driver::{Driver, hex};
 use rotov_harness::scalar::*;
-use rotov_harness::worker::{Ended, run_batches, run_worker};
+use rotov_harness::worker::{Ended, run_batches, run_worker, run_worker_keep_stdout};
 use rotov_harness::{Prng, Report};
 use serde_json::{Value, json};
 use std::collections::BTreeSet;
@@ -552,17 +552,34 @@ fn main() {
                         json!({"type_index": idx, "ended": format!("{how:?}"), "seed": seed}),
                     );
                 });
-            let n = if thorough { 20_000 } else { 300 };
-            run_batches(&["progs", &seed_s], n, 50, Duration::from_secs(240), &mut rep,
-                |rep: &mut Report, idx: u64, how: &Ended| {
-                    let mut p = Prng::for_case(seed, idx);
-                    let g = generator::gen_program(&mut p);
-                    rep.violation(
-                        "process died or hung (trap/abort/timeout) while compiling or running a program on inputs where the spec yields a value",
-                        "control-flow crash",
-                        json!({"seed": seed, "index": idx, "src": source(&g.prog), "ended": format!("{how:?}")}),
-                    );
-                });
+            let n: u64 = if thorough { 20_000 } else { 300 };
+            // like `worker::run_batches`, with a budget of crashes/hangs: a compiler that
+            // miscompiles loops makes many programs hang, and one replay is enough
+            let (mut from, mut crashes, mut generated) = (0u64, 0u32, 0u64);
+            while from < n && crashes < 4 {
+                let cnt = 50.min(n - from);
+                let (f, c) = (from.to_string(), cnt.to_string());
+                let (ended, out) = run_worker_keep_stdout(&["progs", &seed_s, &f, &c], Duration::from_secs(if crashes == 0 { 60 } else { 20 }));
+                if let Some(v) = Report::parse_stdout(&out) { rep.merge_json(&v); }
+                if matches!(ended, Ended::Exit(0, _)) {
+                    from += cnt;
+                    generated = from;
+                    continue;
+                }
+                crashes += 1;
+                let idx = out.lines().rev().find_map(|l| l.strip_prefix("START ")).and_then(|s| s.trim().parse::<u64>().ok()).unwrap_or(from);
+                let mut p = Prng::for_case(seed, idx);
+                let g = generator::gen_program(&mut p);
+                rep.violation(
+                    "process died or hung (trap/abort/timeout) while compiling or running a program on inputs where the spec yields a value",
+                    "control-flow crash",
+                    json!({"seed": seed, "index": idx, "src": source(&g.prog), "ended": format!("{ended:?}")}),
+                );
+                from = idx + 1;
+                generated = from;
+            }
+            if crashes >= 4 { rep.notes.push(format!("stopped after {crashes} crashes/hangs at program {generated} of {n}")); }
+            let n = generated;
             rep.notes.push(format!("programs generated: {n}; argument tuples per program: 30; operator table: boundary^2 + {extra} random per (type, operator)"));
         }
         Some("worker") => {
@@ -588,7 +605,14 @@ fn main() {
                         let mut p = Prng::for_case(seed, idx);
                         let g = generator::gen_program(&mut p);
                         let a = generator::gen_args(&mut p, g.arg_ty, g.arity, 10);
+                        let before = rep.impl_violations.len() + rep.model_mismatches.len();
                         check_generated(&mut rep, &mut drv, &g, &a, seed, idx);
+                        // a later program may hang or crash this worker: hand findings over at once
+                        // (the parent reads the last report line)
+                        if rep.impl_violations.len() + rep.model_mismatches.len() != before {
+                            rep.emit();
+                            std::io::stdout().flush().ok();
+                        }
                     }
                 }
                 "replay1" => {
